@@ -26,7 +26,7 @@ TV = "translation_validation"
 prop("C01", "proof", "Lean 4 theorems: mapper == record-level retrace specification (all record lists, all frames), cache == mapper (C02), bytes -> records (C05) + differential correspondence",
      "Executable Lean model of parser, mapper and cache answers frame-by-line queries; every run compares it with the real crate on generated mappings x the query universe, and a metamorphic oracle checks independence from terminators, noise lines and block order.",
      "Model hand-written; tie is differential. Mapper side proved (record-level specification PG/Spec/Retrace.lean: last block with that name, entries in file order whose range contains the line, ProGuard line rule, sourceFile/synthetic/foreign-class file rule; unknown class/method => []; independent of parameter index and of other blocks); bytes -> records is C05; the cache side is C02.",
-     theorems=["PG.C01_mapper", "PG.C01_unknown_class", "PG.C01_unknown_method", "PG.C01_pm_indep", "PG.C01_offset_exact", "PG.C01_block_local", "PG.C01_cache"], oracle=True)
+     theorems=["PG.C01_mapper", "PG.C01_unknown_class", "PG.C01_unknown_method", "PG.C01_pm_indep", "PG.C01_offset_exact", "PG.C01_block_local", "PG.C01_cache", "PG.C01_file", "PG.C01_terminator_indep", "PG.okRecs_resync", "PG.okRecs_noise"], oracle=True)
 prop("C02", "proof", "Lean 4 refinement proof (cache writer + reader == mapper == record-level specification) + differential correspondence",
      "Kernel-checked, for every record list in the representable domain (ReprR: names non-empty, line numbers < 2^32-1, strings valid UTF-8) whose tables fit the format's u32 counters (Small): the written bytes parse back to the written tables (serialisation round trip: little-endian u32s, 0-or-4-byte padding, header counts, LEB128-prefixed deduplicated string table); the tables represent the record stream (classes strictly sorted by name with last-block-wins, members grouped and sorted by obfuscated name in file order, by-params entries sorted by (name, args) after inline filtering and de-duplication, every offset resolving in the final string table, offsets identifying names); Rust's branch-free binary_search_by + linear range expansion on such tables return exactly the matching entries; hence class lookup, method lookup, frame remapping by line and by parameter list, throwable, text and typed stack-trace remapping and signature deobfuscation of the parsed cache equal those of the mapper (which equal the record-level specification, C01/C03/C04), for all query strings and line numbers; line-based mapper answers do not depend on the parameter index. The model is tied to the crate on every query kind over grammar, token-mutated, out-of-domain and corpus mappings, plus the direct oracle mapper == cache on the implementation's own answers.",
      "At the level of mapping bytes (C02_bytes) the only hypotheses are the genuine domain conditions (names non-empty, line numbers < 2^32-1) and a file size below 16 MiB (a non-tight bound under which the u32 counters provably cannot overflow): validity of UTF-8 of everything the parser yields and the size of the tables are proved.",
